@@ -5,6 +5,7 @@ verus! {
 //@include shims/core.rs
 //@include shims/alloc_free.rs
 //@include spec/hash.rs
+//@include shims/asref.rs
 //@include shims/digest.rs
 //@struct Hash @ src/hash/mod.rs clone
 // The adapters' trait-impl functions are emitted as inherent methods (Verus mis-handles trait methods with their own
